@@ -29,9 +29,11 @@ TARGETS = [
     ("cutting_experiments.py", "generate_cutting_experiments"),
     ("cutting_experiments.py", "_get_mapping_ids_by_partition"),
     ("cutting_experiments.py", "_get_bases"),
+    ("cutting_experiments.py", "_append_measurement_circuit"),
     ("cutting_reconstruction.py", "reconstruct_expectation_values"),
     ("qpd/decompose.py", "decompose_qpd_instructions"),
     ("qpd/decompose.py", "_validate_qpd_instructions"),
+    ("qpd/decompose.py", "_decompose_qpd_instructions"),
     ("qpd/decompositions.py", "qpdbasis_from_instruction"),
     ("qpd/decompositions.py", "_theta_from_instruction"),
     ("qpd/qpd_basis.py", "QPDBasis._set_maps"),
